@@ -80,10 +80,11 @@ theorem paired_reach_threshold_or_certain (arrival : List Job)
   · simp at e
   · simp at e
 
-/-- when no two uncertain results tie on score, every order of arrival gives the result of the
-    sequential run, up to the order in which the results are listed -/
+/-- when no two candidate pairs (uncertain results at or above the threshold) tie on score, every
+    order of arrival gives the result of the sequential run, up to the order in which the results
+    are listed; ties below the threshold (e.g. the pairs the early exit scores 0) are harmless -/
 theorem schedule_independent (arrival : List Job) (hp : arrival.Perm (jobs L R scoreT scoreF prefer))
-    (hn : NoScoreTies (jobs L R scoreT scoreF prefer)) :
+    (hn : NoScoreTies minW (jobs L R scoreT scoreF prefer)) :
     (winners L R minW arrival).Perm (compare L R scoreT scoreF prefer minW) :=
   winners_perm L R minW hp hn
 
@@ -115,8 +116,10 @@ def exF : Nat → Nat → Rat := fun l r => if l = 2 ∧ r = 10 then 9 / 10 else
 example : IdsOK exL exR ∧ JobsOK exL exR (jobs exL exR (fun _ _ => 1) exF (1 / 2)) := by decide +kernel
 example : compare exL exR (fun _ _ => 1) exF (1 / 2) (1 / 2) =
     [(some 0, some 12), (some 1, some 11), (some 2, some 10), (none, some 13)] := by decide +kernel
--- NoScoreTies is satisfiable with several uncertain jobs
-example : NoScoreTies [⟨2, 10, false, 9 / 10⟩, ⟨2, 13, false, 8 / 10⟩, ⟨0, 12, true, 0⟩, ⟨1, 11, true, 0⟩] := by
+-- NoScoreTies is satisfiable with several candidate pairs, and with ties below the threshold
+example : NoScoreTies (1 / 2) [⟨2, 10, false, 9 / 10⟩, ⟨2, 13, false, 8 / 10⟩, ⟨2, 11, false, 0⟩, ⟨2, 12, false, 0⟩,
+    ⟨0, 12, true, 0⟩, ⟨1, 11, true, 0⟩] := by
   decide +kernel
+example : NoScoreTies (1 / 2) (jobs exL exR (fun _ _ => 1) exF (1 / 2)) := by decide +kernel
 
 end Gedcom.C11
